@@ -135,7 +135,12 @@ impl NameCompressor {
 
         // Repeatedly look up entries that could be used for compression.
         while !name.is_empty() {
-            match self.lookup_entry_for_revname(contents, name, parent) {
+            match self.lookup_entry_for_revname(
+                contents,
+                name,
+                parent,
+                parent_offset,
+            ) {
                 Some(entry) => {
                     let tmp;
                     (parent, name, tmp) = entry;
@@ -188,11 +193,15 @@ impl NameCompressor {
     ///
     /// On success, the entry's index, the remainder of the name, and the
     /// offset of the referenced domain name are returned.
+    ///
+    /// `parent_offset` is the offset returned for `parent` (if any); only
+    /// entries that continue at exactly that offset are considered.
     fn lookup_entry_for_revname<'n>(
         &self,
         contents: &[u8],
         name: &'n [u8],
         parent: u8,
+        parent_offset: Option<u16>,
     ) -> Option<(u8, &'n [u8], u16)> {
         // SAFETY: 'name' is a sequence of labels.
         let mut name_labels = unsafe { LabelIter::new_unchecked(name) };
@@ -213,6 +222,20 @@ impl NameCompressor {
             debug_assert_ne!(len, 0);
             let mut entry = contents.get(pos..pos + len)
                 .unwrap_or_else(|| panic!("'contents' did not correspond to the name compressor state"));
+
+            // An entry with a parent is followed, in the message, by a
+            // compression pointer to some offset within that parent. The
+            // entry continues 'name' only if that is the offset at which
+            // the part of 'name' matched so far begins; the parent index
+            // alone does not tell (e.g. 'a.c' was compressed against the
+            // 'c' of 'b.c', and now 'x.a.b.c' has matched 'b.c').
+            if let Some(offset) = parent_offset {
+                let pointer = offset.wrapping_add(0xC00C).to_be_bytes();
+                if contents.get(pos + len..pos + len + 2) != Some(&pointer[..])
+                {
+                    continue;
+                }
+            }
 
             // Find a shared suffix between the entry and the name.
             //
@@ -292,7 +315,13 @@ impl NameCompressor {
 
         // Repeatedly look up entries that could be used for compression.
         while !name.is_empty() {
-            match self.lookup_entry_for_name(contents, name, parent, hash) {
+            match self.lookup_entry_for_name(
+                contents,
+                name,
+                parent,
+                parent_offset,
+                hash,
+            ) {
                 Some(entry) => {
                     let tmp;
                     (parent, name, hash, tmp) = entry;
@@ -346,6 +375,7 @@ impl NameCompressor {
         contents: &[u8],
         name: &'n [u8],
         parent: u8,
+        parent_offset: Option<u16>,
         hash: u16,
     ) -> Option<(u8, &'n [u8], u16, u16)> {
         // SAFETY: 'name' is a non-empty sequence of labels.
@@ -364,6 +394,20 @@ impl NameCompressor {
             debug_assert_ne!(len, 0);
             let entry = contents.get(pos..pos + len)
                 .unwrap_or_else(|| panic!("'contents' did not correspond to the name compressor state"));
+
+            // An entry with a parent is followed, in the message, by a
+            // compression pointer to some offset within that parent. The
+            // entry continues 'name' only if that is the offset at which
+            // the part of 'name' matched so far begins; the parent index
+            // alone does not tell (e.g. 'a.c' was compressed against the
+            // 'c' of 'b.c', and now 'x.a.b.c' has matched 'b.c').
+            if let Some(offset) = parent_offset {
+                let pointer = offset.wrapping_add(0xC00C).to_be_bytes();
+                if contents.get(pos + len..pos + len + 2) != Some(&pointer[..])
+                {
+                    continue;
+                }
+            }
 
             // Find a shared suffix between the entry and the name.
             //
